@@ -86,6 +86,16 @@ CLAIMED = {
          "Tied to /repo by exact comparison of the built models / error kinds, a truth-table oracle, and an unchanged-operands check.",
     note="Trusted: Coq kernel + vm_compute; no axioms; hand-written model of sat/_satisfiability.py on top of the C05 model; harness.",
     technique="Coq proof (nested induction over expression trees, on top of C05_tree) + model/implementation correspondence", ref="§5 C07"),
+ "C19": dict(
+    text="Coq theorem C19_roundtrip: create_from_info(get_info(M)) reproduces M's kind, terms (coefficient by coefficient), name, "
+         "mapping, ancilla count and recorded constraints for every canonically stored model of the ten kinds (C19_copy: copy() "
+         "keeps function, kind, canonical form and the bookkeeping invariant). The no-aliasing half is decided by refinement to "
+         "this value-semantics model: the harness mutates every object the implementation hands out (copy, copy constructor, "
+         "variables, mapping, reverse_mapping, constraints and their polynomials, get_info's dict, the round-trip copy) and "
+         "re-observes the source, and every library call made by any property's harness is wrapped in an argument-purity monitor.",
+    note="Trusted: Coq kernel + vm_compute; no axioms; hand-written model of utils/_info.py; harness. Partial by construction: object "
+         "identity in CPython is outside the model, so aliasing is shown absent only on the histories explored.",
+    technique="Coq proof (round trip) + refinement check against a value-semantics model", ref="§5 C19"),
 }
 NA_REASON = "check not built yet in this round; see DESIGN.md §8 (order of work)"
 
